@@ -745,6 +745,19 @@ impl FinishedSession {
             return Ok(Some(self));
         }
 
+        // A stale changeset must be rejected before its delta reaches the rollback log. The
+        // write guard is held, so the root cannot change until the swap below.
+        {
+            let shared = nomt.shared.lock();
+            if shared.root != self.prev_root {
+                anyhow::bail!(
+                    "Changeset no longer valid (expected previous root {:?}, got {:?})",
+                    self.prev_root,
+                    shared.root
+                );
+            }
+        }
+
         if let Some(rollback_delta) = self.rollback_delta {
             // UNWRAP: if rollback_delta is `Some`, then rollback must be also `Some`.
             let rollback = nomt.store.rollback().unwrap();
